@@ -223,26 +223,20 @@ pub fn explore<M: Model>(m: &M, rep: &Report, lim: &Limits, label: &str) -> Outc
             rep.violation(v);
             return true;
         }
-        // determinism: the same path must fail with the same signature twice
-        let sig = v.sig();
+        // determinism: re-executing the path twice must fail twice with one and the same
+        // signature. Oracles that skip already-checked documents during exploration check
+        // everything on replay, so the replayed signature may name an earlier failing check of the
+        // same state; in that case the (deterministic) replayed violation is the one reported.
+        let mut replayed: Vec<Violation> = vec![];
         for round in 0..2 {
             match replay_path(m, init as usize, &path, false) {
-                Ok(Some(v2)) if v2.sig() == sig => {}
-                Ok(Some(v2)) => {
-                    rep.machinery_error(format!(
-                        "replay {} of violating path gave a different signature: {} vs {}",
-                        round,
-                        v2.sig(),
-                        sig
-                    ));
-                    return false;
-                }
+                Ok(Some(v2)) => replayed.push(v2),
                 Ok(None) => {
                     // the failing oracle may be the confluence check which needs two paths
                     if v.oracle != "confluence" {
                         rep.machinery_error(format!(
                             "violation {} did not reproduce on replay {} (path {:?})",
-                            sig, round, path
+                            v.sig(), round, path
                         ));
                         return false;
                     }
@@ -250,6 +244,25 @@ pub fn explore<M: Model>(m: &M, rep: &Report, lim: &Limits, label: &str) -> Outc
                 Err(e) => {
                     rep.machinery_error(format!("replay diverged: {}", e));
                     return false;
+                }
+            }
+        }
+        if replayed.len() == 2 {
+            if replayed[0].sig() != replayed[1].sig() {
+                rep.machinery_error(format!(
+                    "two replays of the same path gave different signatures: {} vs {}",
+                    replayed[0].sig(),
+                    replayed[1].sig()
+                ));
+                return false;
+            }
+            if replayed[0].sig() != v.sig() {
+                let mut v2 = replayed.remove(0);
+                v2.case = v.case.clone();
+                v = v2;
+                if rep.is_known(&v) {
+                    rep.violation(v);
+                    return true;
                 }
             }
         }
